@@ -127,6 +127,31 @@ CLAIMED["C19"] = {
     "design": "DESIGN.md section 3 C19",
 }
 
+CLAIMED["C10"] = {
+    "text": "Bounded model checking of the real Chunk.width/FmtStr.width/width_at_offset/width_aware_slice (method and "
+            "module function)/interval_overlap: 1..3 runs, total length <= 4 (thorough 6); the width class of every "
+            "character is a symbolic selector the solver enumerates, the column range a <= b and the offset n are symbolic "
+            "integers; z3 decides on every path the comparison with the column-expansion oracle (width, width at offset, "
+            "the cut: characters wholly inside keep formatting, halved double-width characters become a space with that "
+            "formatting, result width = requested columns that exist). interval_overlap is proved equal to "
+            "max(0, min(b,y)-max(a,x)) for ALL integers a<=b, x<=y (its 'assert False' unreachable).",
+    "note": "Trusted: CPython, CrossHair + z3, the width oracle standing in for cwcwidth (validated on the alphabet every "
+            "run; replays use cwcwidth), one representative character per class. Placement of zero-width characters in "
+            "the slice is only checked loosely. Longer texts / other characters outside.",
+    "technique": TECH + "; width-oracle stub, solver-enumerated width classes, symbolic column arithmetic",
+    "design": "DESIGN.md section 3 C10",
+}
+CLAIMED["C11"] = {
+    "text": "Bounded model checking of the real width_aware_splitlines/ChunkSplitter: 1..3 runs, total length <= 4 (thorough "
+            "6), width classes enumerated by the solver, columns symbolic (2..4, thorough 2..6), layouts with distinct and "
+            "with equal adjacent runs. Per path: no line wider than columns, all but the last exactly columns, none "
+            "without characters, and the concatenated lines equal the input cells with single padding spaces (formatted "
+            "like the following double-width character) exactly where such a character would straddle a boundary.",
+    "note": "Trusted as C10. Which line a zero-width character lands on is not constrained.",
+    "technique": TECH + "; width-oracle stub, solver-enumerated width classes, symbolic columns",
+    "design": "DESIGN.md section 3 C11",
+}
+
 NOT_YET = {}
 
 ALL = ["C%02d" % i for i in range(1, 21)]
